@@ -390,6 +390,22 @@ def batch_names(lo, hi):
                 res['violations'].append({'label': 'uvl-name', 'detail': bad[0], 'replay_func': 'replay_file', 'replay_args': args})
                 if len(res['violations']) >= 5:
                     return res
+    if lo == 0:
+        # distinct names that coincide under blank removal / trimming / case folding / separator replacement ...
+        def expressible(w):
+            return not any(ch in w for ch in '".\r\n') and not (len(w) >= 2 and w[0] == "'" and w[-1] == "'")
+        for names in rt.confusable_cases(4, ok=expressible):
+            for cards, trees in (([(1, 2), (0, 1)], [('IMPLIES', names[1], names[2]), ('OR', ('NOT', names[0]), ('AND', names[3], names[1]))]),
+                                 ([(2, 2), (1, 1)], [('EXCLUDES', names[2], names[1])])):
+                args = [shape, cards, names, None, None, None, [(2, names[0], 1), (1, names[1], 'v')], trees]
+                res['instances'] += 1
+                res['native_runs'] += 1
+                res['nontrivial'] += 1
+                bad = replay_file(*args)
+                if bad:
+                    res['violations'].append({'label': 'uvl-name', 'detail': bad[0], 'replay_func': 'replay_file', 'replay_args': args})
+                    if len(res['violations']) >= 5:
+                        return res
     res['sample'] = {'names': cand[lo:hi][:5]}
     return res
 
